@@ -72,6 +72,46 @@ def value_trees() -> Dict[str, TCls]:
     }
 
 
+def gen_trees(max_leaves: int = 3) -> Dict[str, TCls]:
+    """Thorough tier: every pair/or tree with up to max_leaves leaves, every leaf named from {-, a, b, nat_1} (duplicates and collisions with
+    generated names included) and every inner node plain or annotated."""
+    import itertools
+    out: Dict[str, TCls] = {}
+
+    def shapes(n: int):
+        if n == 1:
+            yield None
+            return
+        for k in range(1, n):
+            for l in shapes(k):
+                for r in shapes(n - k):
+                    yield (l, r)
+
+    def count_inner(x):
+        return 0 if x is None else 1 + count_inner(x[0]) + count_inner(x[1])
+
+    for n in range(2, max_leaves + 1):
+        for sh in shapes(n):
+            ni = count_inner(sh)
+            for kinds in itertools.product(['pair', 'or'], repeat=ni):
+                for names in itertools.product([None, 'a', 'b', 'nat_1'], repeat=n):
+                    for inner in itertools.product([None, 'x'], repeat=ni - 1):
+                        ki, li, ii = iter(kinds), iter(names), iter(inner)
+
+                        def build(x, root=False):
+                            if x is None:
+                                return TCls('nat', [], next(li))
+                            kind = next(ki)
+                            ann = None if root else next(ii)
+                            l = build(x[0])
+                            r = build(x[1])
+                            return TCls(kind, [l, r], ann)
+
+                        tree = build(sh, root=True)
+                        out[repr(tree)] = tree
+    return out
+
+
 def exprs(tc: TCls, tag: str = 'v') -> List[Tuple[str, Any]]:
     """(description, Micheline value expression) for every value position of the type; leaves are opaque symbols."""
     if tc.prim == 'pair':
@@ -182,7 +222,10 @@ def run(repo: Repo, chk: Check) -> None:
     # ---- 2 value round trips ------------------------------------------------------------------------------------------------
     chk.set_clause('C12.2')
     nv = 0
-    for name, root in value_trees().items():
+    forest = dict(value_trees())
+    if chk.tier == 'thorough':
+        forest.update(gen_trees(3))
+    for name, root in forest.items():
         for d, e in exprs(root):
             for comparable in (False, True):
                 nv += 1
